@@ -110,7 +110,7 @@ def build(flavour="plain", quiet=True):
 
 def asan_env():
     lib = subprocess.check_output(["gcc", "-print-file-name=libasan.so"], text=True).strip()
-    return {"LD_PRELOAD": lib, "ASAN_OPTIONS": "detect_leaks=0:abort_on_error=0:exitcode=99",
+    return {"LD_PRELOAD": lib, "ASAN_OPTIONS": "detect_leaks=0:abort_on_error=0:exitcode=99:allocator_may_return_null=1",
             "UBSAN_OPTIONS": "halt_on_error=1:exitcode=98:print_stacktrace=1"}
 
 
